@@ -45,7 +45,7 @@ pats=int(os.environ.get("STANDIN_PATS","0"))
 json.dump({"bounded":[{"function":"published facts and candidate search (assumed PosFacts/ModeFacts at scan; the analyzers in syntax/prefixanalyzer.go, prefix.go, optimizations.go, tree.go min/max length; finders behind callensure assumptions in findFirstCharOptimized; findFirstCharDefault; bump-along; raw-string prefix filters)","labelled":"bounded - not counted as proved",
  "bound":"%d patterns: items = atom x quantifier (none * + ? *? +? {2} {1,2}) with 18 atoms (a b [ab] [^a] . \\w - \\d [^ab] \\W \\s [a-] (?:ab) (?:a|-) \\b 1 (?i:a) [\\w-[a]]); every 1- and 2-item sequence, 3-item sequences over %s, two-letter literal before/after an item, x|y, xy|z, (?:x|y)z, x(?:y|z), quantified groups, captures, atomic groups, ^ $ \\b \\G, four lookarounds, backreferences, and ~150 hand-picked shapes (literal-after-loop, landmark chains, balancing groups, conditionals, inline options); options %s; every text over {a,b,-,1} of length 0..%d (hand-picked shapes also over {a,-,space,.} of length 0..%d) plus 33 longer texts (8 with 2- and 4-byte runes, 4 with an invalid byte in the string form); 12 shapes with fixed counts around 20..30 on 7 texts of 21..32 runes; every attempt position, every finder start, %s"%(pats,"the 8 first atoms x (none * + ?)" if lvl>=2 else "20 items","None, RightToLeft, IgnoreCase, None+OptionIsCodeGen"+(", IgnoreCase+OptionIsCodeGen, RightToLeft|IgnoreCase, ECMAScript, RE2, Multiline+OptionIsCodeGen, Singleline" if lvl>=2 else ""),n,n+1,"every start offset of the public calls" if e2e>=2 else "the default start offset of the public calls"),
  "cases":int(cases),"seconds":float(secs),"result":status,
- "checks":"where a single-position attempt of the compiled program succeeds: remaining length >= MinRequiredLength, match length <= MaxPossibleLength, published leading/trailing anchors hold, leading prefix / one of the leading prefixes is there, fixed-distance char, string and sets hold, Boyer-Moore prefix matches, first character is in the first-character set; the finder from any start never passes over such a position; FindRunesMatchStartingAt, FindStringMatchStartingAt and MatchString return exactly the naive scan's match (position, length, all captures)"}]},open(out,"w"))
+ "checks":"where a single-position attempt of the compiled program succeeds: remaining length >= MinRequiredLength, match length <= MaxPossibleLength, published leading/trailing anchors hold, leading prefix / one of the leading prefixes is there, fixed-distance char, string and sets hold, Boyer-Moore prefix matches, first character is in the first-character set; the finder from any start never passes over such a position; FindRunesMatchStartingAt, FindStringMatchStartingAt and MatchString return exactly the naive scan's match (position, length, all captures); the FindNextMatch sequence is ordered, disjoint, finite and each step equals an independent search from the end of the previous match"}]},open(out,"w"))
 PY
 [ "$status" = held ] && exit 0
 echo "$res" | grep -q STANDIN-MISMATCH && exit 1
